@@ -32,6 +32,8 @@ fn catalogue() -> Vec<(&'static str, Vec<Vec<f64>>, Vec<f64>, Vec<f64>)> {
     v.push(("n8p3", (0..8).map(|i| vec![(i % 4) as f64, 1.0, ((i * 3) % 5) as f64]).collect(), vec![0.0, 1.0, 1.0, 0.0, 0.0, 1.0, 0.0, 1.0], (0..8).map(|i| ((i * 5) % 7) as f64 * 0.5).collect()));
     // n=12, p=2, four classes, skewed
     v.push(("n12p2c4", (0..12).map(|i| vec![(i % 4) as f64 + 0.5 * (i / 8) as f64, ((i * 7) % 6) as f64]).collect(), vec![1.0, 1.0, 1.0, 1.0, 1.0, 1.0, 5.0, 5.0, 5.0, 9.0, 9.0, 20.0], (0..12).map(|i| if i % 5 == 0 { 50.0 } else { i as f64 }).collect()));
+    // n=8, p=6, binary features with exact gain ties between columns (feature sub-sampling with m << p)
+    v.push(("n8p6", (0..8).map(|i: usize| (0..6).map(|c: usize| (((i >> (c % 3)) & 1) ^ (c / 3)) as f64).collect()).collect(), vec![0.0, 1.0, 1.0, 0.0, 1.0, 0.0, 0.0, 1.0], (0..8).map(|i| ((i * 3) % 8) as f64).collect()));
     // n=6, p=1 heavy ties
     v.push(("n6p1ties", vec![vec![1.0], vec![1.0], vec![1.0], vec![2.0], vec![2.0], vec![3.0]], vec![-1.0, 1.0, -1.0, 1.0, 1.0, -1.0], vec![3.0, 1.0, 2.0, 5.0, 4.0, 0.0]));
     v
@@ -122,6 +124,14 @@ fn check_classifier(site: &str, ctx: &str, rows: &[Vec<f64>], y: &[f64], n_trees
                 }
             }
         }
+        // a tree fitted on a bootstrap sample can only predict labels that occur among its in-bag rows
+        for (t, smp) in samples.iter().enumerate() {
+            let inbag: Vec<f64> = (0..n).filter(|i| smp[*i]).map(|i| y[i]).collect();
+            if member[t].iter().any(|v| !inbag.contains(v)) {
+                mc::violation(format!("{}:tree-inconsistent-with-in-bag-mask", site), format!("{}: member tree {} predicts {:?} but its stored in-bag mask {:?} only holds the labels {:?}", ctx, t, member[t], smp, inbag));
+                return;
+            }
+        }
         match &o.oob {
             None => mc::violation(format!("{}:oob-unavailable", site), format!("{}: predict_oob failed although samples were kept", ctx)),
             Some(oob) => {
@@ -194,6 +204,20 @@ fn check_regressor(site: &str, ctx: &str, rows: &[Vec<f64>], y: &[f64], n_trees:
         if samples.len() != n_trees || samples.iter().any(|s| s.len() != n) {
             mc::violation(format!("{}:samples-shape", site), format!("{}: samples has shape {}x{:?}", ctx, samples.len(), samples.first().map(|s| s.len())));
             return;
+        }
+        // a tree fitted on a bootstrap sample predicts means of in-bag targets only: every prediction
+        // lies within the range of the targets of the rows its stored mask calls in-bag
+        for t in 0..n_trees {
+            let inbag: Vec<f64> = (0..n).filter(|i| samples[t][*i]).map(|i| y[i]).collect();
+            if inbag.is_empty() {
+                mc::violation(format!("{}:in-bag-mask-empty", site), format!("{}: tree {} has an empty in-bag mask", ctx, t));
+                continue;
+            }
+            let (l, h) = (inbag.iter().cloned().fold(f64::INFINITY, f64::min), inbag.iter().cloned().fold(f64::NEG_INFINITY, f64::max));
+            if member[t].iter().any(|v| !(*v >= l - 1e-12 * span && *v <= h + 1e-12 * span)) {
+                mc::violation(format!("{}:tree-inconsistent-with-in-bag-mask", site), format!("{}: member tree {} predicts {:?} but its stored in-bag mask {:?} only holds targets in [{}, {}] - the mask does not describe the sample the tree was fitted on", ctx, t, member[t], samples[t], l, h));
+                return;
+            }
         }
         match &o.oob {
             None => mc::violation(format!("{}:oob-unavailable", site), format!("{}: predict_oob failed although samples were kept", ctx)),
@@ -298,9 +322,9 @@ fn seeded_case(job: &Job) {
     };
     let same_bits = |u: &[f64], v: &[f64]| u.len() == v.len() && u.iter().zip(v).all(|(p, q)| p.to_bits() == q.to_bits());
     if a.json != b.json {
-        mc::violation(format!("{}:not-reproducible", site), format!("{}: two fits with equal data, parameters and seed serialise differently", ctx));
+        mc::violation_nondet(format!("{}:not-reproducible", site), format!("{}: two fits with equal data, parameters and seed serialise differently", ctx));
     } else if !same_bits(&a.pred, &b.pred) || a.oob.as_ref().map(|v| v.iter().map(|x| mc::hash::canon_bits(*x)).collect::<Vec<_>>()) != b.oob.as_ref().map(|v| v.iter().map(|x| mc::hash::canon_bits(*x)).collect::<Vec<_>>()) {
-        mc::violation(format!("{}:predictions-not-reproducible", site), format!("{}: two identical fits predict differently", ctx));
+        mc::violation_nondet(format!("{}:predictions-not-reproducible", site), format!("{}: two identical fits predict differently", ctx));
     }
     if regression {
         check_regressor(site, &ctx, rows, &y, n_trees, keep, &a, &q);
@@ -354,7 +378,8 @@ fn bootstrap_case(job: &Job) {
         Ok(Ok(o)) => o,
     };
     if boot.len() != 4 * n_trees {
-        mc::violation(format!("{}:bootstrap-draw-count", site), format!("{}: expected {} bootstrap draws, saw {}", ctx, 4 * n_trees, boot.len()));
+        // a different (still legitimate) drawing scheme: the mask reconstruction below does not apply
+        mc::count("nonstandard_bootstrap_draw_pattern");
     }
     // the stored in-bag masks must be the ones the draws produced
     if let Some(samples) = jbools(&o.json["samples"]) {
@@ -459,7 +484,7 @@ impl Harness for C06 {
             case_deadline_ms: 20_000,
             floors: vec![("seeded_fits", 10_000), ("bootstrap_schedules", 10_000), ("feature_shuffles_explored", 1000), ("oob_rows_checked", 10_000), ("oob_rows_partial", 1000), ("rows_with_disagreeing_trees", 1000)],
             bounds: json!({
-                "seeded": format!("6 lattice data sets x {{classifier, regressor}} x seeds {}..{} x n_trees {{1,2,3,5,10,30}} x m in {{None,1..p}} x 6 (max_depth, min_samples_leaf, min_samples_split) settings x keep_samples x 3 criteria", seed0, seed0 as usize + nseeds),
+                "seeded": format!("7 lattice data sets x {{classifier, regressor}} x seeds {}..{} x n_trees {{1,2,3,5,10,30}} x m in {{None,1..p}} x 6 (max_depth, min_samples_leaf, min_samples_split) settings x keep_samples x 3 criteria", seed0, seed0 as usize + nseeds),
                 "bootstrap": "n=4 rows (2+2 classes / 2 target vectors), 3 layouts per p in {1,2}, n_trees in {1,2}, m in {p, 1}: EVERY bootstrap outcome (16 per classifier tree, 256 per regressor tree) and every feature-subsampling shuffle",
             }),
         }
